@@ -1604,7 +1604,7 @@ def nop_items():
 def check_enc(cx):
     cfg = ENC[cx.prop]
     quick = cx.tier == "quick"
-    thms = ["AL.Properties.%s.%s" % (cx.prop, t) for t in ENC_THEOREMS.get(cx.prop, [])]
+    thms = ENC_THEOREMS.get(cx.prop, [])
     info = stage_proofs(cx, "AL.Properties." + cx.prop, thms)
     impl = build_impl(cx)
     if not (info and impl):
@@ -1635,7 +1635,7 @@ def check_enc(cx):
     dis = collections.Counter()
     disex = {}
     for c, o in zip(codes, od):
-        r = x86ref.spec_vs_objdump(first.get(c, "?"), o)
+        r = x86ref.spec_vs_objdump(first.get(c, "?"), o, len(c) // 2)
         if r:
             k = re.sub(r"[0-9a-fx-]{3,}", "N", r.split(" (")[0])[:50]
             dis[k] += 1
@@ -1700,7 +1700,15 @@ def check_enc(cx):
                   exhaustive=cx.prop in ("C01", "C04", "C05"))
 
 
-ENC_THEOREMS = {}
+ENC_THEOREMS = {
+    "C01": ["AL.Properties.Sweep.c01_sweep", "AL.Properties.C01.nop_table_decodes", "AL.Properties.C01.no_operand_lines"],
+    "C02": ["AL.Properties.Sweep.c02_sweep", "AL.Properties.C02.disp_field_reads_back", "AL.Spec.X86.leVal_assembleConst", "AL.Spec.X86.toSigned_roundtrip",
+            "AL.Properties.C11.swap_same_address", "AL.Properties.C11.nobase_scale2_same_address", "AL.Properties.C11.nobase_scale1_same_address"],
+    "C03": ["AL.Properties.Sweep.c03_sweep", "AL.Properties.C03.written_number_value", "AL.Properties.C03.imm_field_reads_back",
+            "AL.Lemmas.strtoul_dec", "AL.Lemmas.strtoul_hex", "AL.Lemmas.strtoul_neg_dec", "AL.Lemmas.strtoul_neg_hex"],
+    "C04": ["AL.Properties.Sweep.c04_sweep", "AL.Properties.C04.vex2_is_vex3"],
+    "C05": ["AL.Properties.Sweep.c05_sweep", "AL.Properties.C05.rel_field_reads_back", "AL.Properties.C05.written_displacement"],
+}
 
 
 
@@ -2132,6 +2140,165 @@ def check_C19(cx):
 
 
 
+# ------------------------------------------------------------------------------------------
+# C20 — asmline
+# ------------------------------------------------------------------------------------------
+
+CLI_MODES = [[], ["n"], ["t"], ["s"], ["nasm-mov-imm"], ["strict-mov-imm"], ["smart-mov-imm"], ["nasm-sib"], ["strict-sib"],
+             ["nasm-sib-index-base-swap"], ["strict-sib-index-base-swap"], ["nasm-sib-no-base"], ["strict-sib-no-base"],
+             ["t", "nasm-mov-imm"], ["n", "strict-sib-no-base"], ["strict-sib", "nasm-sib-index-base-swap"], ["s", "t"], ["t", "s"], ["n", "t", "n"],
+             ["strict-sib-no-base", "nasm-sib"], ["nasm-mov-imm", "strict-mov-imm"], ["t", "nasm-sib", "strict-sib-index-base-swap"],
+             ["strict-mov-imm", "n"], ["smart-mov-imm", "strict-sib", "nasm-sib-no-base"]]
+
+
+def cli_args(tokens, outdir):
+    """argv for the flag tokens of the model's syntax"""
+    av = []
+    for t in tokens:
+        if t in ("n", "t", "s", "p", "r"):
+            av.append("-" + t)
+        elif t.startswith("c="):
+            av += ["-c", t[2:]]
+        elif t.startswith("b="):
+            av += ["-b", t[2:]]
+        elif t == "P":
+            av += ["-P", os.path.join(outdir, "outP.bin")]
+        elif t == "Pbad":
+            av += ["-P", os.path.join(outdir, "no", "such", "dir", "x.bin")]
+        elif t == "o":
+            av += ["-o", "outo"]          # (relative: the name may not contain a dot, the process runs in outdir)
+        elif t == "o.":
+            av += ["-o", "out.o"]
+        else:
+            av.append("--" + t)
+    return av
+
+
+def hex_tokens(text):
+    return "".join(re.findall(r"(?<![0-9a-fx])([0-9a-f]{2})(?= |\n|$)", text))
+
+
+C20_THEOREMS = ["usage_error_exits", "exit_zero_iff", "option_calls", "option_calls_spec", "parseFlags_opt", "applyLong_opt", "getlines_join", "file_mode_is_library"]
+
+
+def check_C20(cx):
+    thms = ["AL.Properties.C20." + t for t in C20_THEOREMS]
+    info = stage_proofs(cx, "AL.Properties.C20", thms)
+    if not info:
+        return finish(cx, "")
+    try:
+        exe = alv.build_tool(os.path.join("tools", "asmline.c"), "asan")
+    except alv.BuildError as e:
+        cx.oblige("build tools/asmline.c", False, str(e))
+        return finish(cx, "")
+    g = cases.Gen(cx.seed, info["tables"])
+    r = g.r
+    quick = cx.tier == "quick"
+    tmp = os.path.join(alv.CACHE, "clitmp_%d" % os.getpid())
+    os.makedirs(tmp, exist_ok=True)
+    probe = b"mov rax, 0x1\nmov rcx, 0x0000000000000001\nlea r15, [rax+rsp]\nlea r14, [2*rax]\nvaddpd ymm1, ymm2, [rax+r9*8+16]\nret\n"
+    progs = [probe, b"mov rax, 0x1122334455667788\nret", b"nop\n\n; comment\nlabel:\nadd rax, rcx\npush r12\nmov rax, 0x7fffffff\nret\n",
+             b"xor eax, eax\nbogus rax\nret\n", b"", b"ret", b"mov rdx, 0x1122334455667788\n" * 700]
+    for _ in range(3 if quick else 30):
+        progs.append(g.program(r.choice([4, 12, 40])))
+    progs = [bytes(x for x in p if x != 0) for p in progs]
+    outs = [[], ["p"], ["P"], ["o"], ["b=4"], ["b=16"], ["c=8"], ["p", "c=8"], ["p", "b=5"], ["P", "c=16"], ["p", "P"], ["Pbad"], ["c=1"], ["b=0"], ["o."]]
+    cases_ = []
+    for pi, prog in enumerate(progs):
+        modes = CLI_MODES if pi == 0 else r.sample(CLI_MODES, 4 if quick else 10)
+        for mode in modes:
+            for out in (outs if pi < 4 else r.sample(outs, 5)):
+                for stdin in (False, True):
+                    cases_.append((pi, mode + out if r.random() < 0.5 else out + mode, stdin))
+    # -r on side-effect free programs
+    for v in [0, 5, 0x7fffffff, 0x80000000, 0xffffffff, 0x100000000, 0x1122334455667788, 0xffffffffffffffff]:
+        for mode in (["t"], ["n"], ["s"], []):
+            progs.append(b"mov rax, 0x%x\nret\n" % v)
+            cases_.append((len(progs) - 1, mode + ["r"], r.random() < 0.5))
+    ops, obs = [], []
+    nviol = 0
+    for pi, toks, stdin in cases_:
+        prog = progs[pi]
+        path = os.path.join(tmp, "in.asm")
+        open(path, "wb").write(prog)
+        for f in ("outP.bin", "outo.bin", "out.o.bin"):
+            try:
+                os.unlink(os.path.join(tmp, f))
+            except OSError:
+                pass
+        av = cli_args(toks, tmp)
+        p = subprocess.run([exe] + av + ([] if stdin else [path]), input=prog if stdin else None, stdout=subprocess.PIPE, stderr=subprocess.PIPE,
+                           timeout=300, cwd=tmp, env=dict(os.environ, ASAN_OPTIONS="detect_leaks=0"))
+        so = p.stdout.decode("latin1")
+        filebytes = None
+        for f in ("outP.bin", "outo.bin"):
+            fp = os.path.join(tmp, f)
+            if os.path.exists(fp):
+                filebytes = open(fp, "rb").read().hex() or "-"
+        model_toks = [("P" if t == "Pbad" else t) for t in toks]
+        ops.append("CL %s %d %s %d" % (",".join(model_toks) or "-", stdin, cases.hexs(prog), 0 if "Pbad" in toks else 1))
+        obs.append((p.returncode, so, filebytes, p.stderr.decode("latin1")[-300:]))
+    rc, mout, merr = alv.run_driver(alv.driver_path(), ops)
+    cx.oblige("model ran %d asmline invocations" % len(ops), rc == 0 and len(mout) == len(ops), merr[-300:])
+    if rc != 0 or len(mout) != len(ops):
+        return finish(cx, "")
+    mism = []
+    seen_by_key = {}
+    for (pi, toks, stdin), op, (xrc, so, fb, err), mo in zip(cases_, ops, obs, mout):
+        mexit, moff, mcode, mcount = mo.split()
+        tag = {"program": progs[pi][:200].decode("latin1"), "flags": toks, "stdin": stdin}
+        usage = mexit == "1" and moff == "0" and any(t in ("c=1", "b=0", "o.") for t in toks)
+        # correspondence with the model: exit status, binary file, count
+        if str(xrc) != mexit:
+            mism.append({**tag, "what": "exit status", "asmline": xrc, "model": mexit, "stderr": err})
+        if mexit == "0" and ("P" in toks or "o" in toks) and fb != mcode:
+            mism.append({**tag, "what": "binary output file", "asmline": fb, "model": mcode})
+        if mexit == "0" and mcount != "-":
+            m = re.search(r"^(-?\d+)( instructions break a chunk boundary of (\d+) bytes)?$", so, re.M)
+            if not m or m.group(1) != mcount:
+                mism.append({**tag, "what": "count printed by -b", "asmline": so[-80:], "model": mcount})
+        # the property, directly
+        bad = None
+        if xrc == 0 and "p" in toks and mexit == "0":
+            printed = hex_tokens(so)
+            want = "" if mcode == "-" else mcode
+            cumulative = stdin and any(t.startswith("c=") for t in toks)
+            if printed != want:
+                bad = "-p does not print the bytes the library produced" + (" (stdin with -c: the buffer is printed again after every line)" if cumulative else "")
+        if xrc == 0 and "r" in toks:
+            m = re.search(r"the value is 0x([0-9a-f]+)", so)
+            v = int(re.search(rb"0x([0-9a-f]+)", progs[pi]).group(1), 16)
+            if not m or int(m.group(1), 16) != v:
+                bad = "-r does not print the value the code returns in rax"
+        if "Pbad" in toks and xrc == 0 and not usage:
+            bad = "exit status 0 although the requested output file could not be created"
+        key = (pi, tuple(sorted(toks)))
+        if not usage:
+            prev = seen_by_key.get((pi, tuple(toks)))
+            if prev is not None and prev[0] != stdin and (prev[1], prev[2]) != (xrc, fb) and "p" not in toks:
+                bad = "stdin and FILE give different results"
+            seen_by_key[(pi, tuple(toks))] = (stdin, xrc, fb)
+        if bad and nviol < 6:
+            nviol += 1
+            cx.violations.append({"kind": "cli", **tag, "exit": xrc, "stdout": so[-600:], "file": fb, "library_bytes": mcode, "what": bad})
+    for m in mism[:10]:
+        cx.broken.append({"correspondence": "C20 asmline vs model", **m})
+    cx.oblige("asmline agrees with the model (exit status, binary files, counts) on %d invocations" % len(ops), not mism, json.dumps(mism[:3])[:1500])
+    import shutil
+    shutil.rmtree(tmp, ignore_errors=True)
+    cx.count(len(ops), [])
+    cx.nontrivial.update((pi, tuple(t), s) for pi, t, s in cases_)
+    cx.cov["samples"] = [ops[0][:200], ops[len(ops) // 2][:200], ops[-1][:200]]
+    cx.dist = {"programs": len(progs), "mode_flag_sequences": len(CLI_MODES), "output_flag_sets": len(outs), "invocations": len(ops),
+               "stdin_invocations": sum(1 for c in cases_ if c[2])}
+    cx.assumptions.append("getopt_long parses the command line as documented; the kernel delivers stdin and files unchanged")
+    return finish(cx, "programs (option-discriminating probe, valid, rejected, empty, long with growth, generated) x 24 mode-flag sequences (every long "
+                  "flag, -n/-t/-s in both orders, mixtures) x 15 output-flag sets (-p, -P, -o, -b N, -c N, combinations, unwritable path, usage "
+                  "errors) x {stdin, FILE}, and -r on mov rax, v; ret for boundary v in every mode: exit status, binary file, printed count vs the "
+                  "Lean model of asmline over the library model; -p hex and -r value checked directly; distinct = distinct invocations")
+
+
+
 def history_around(ops, idx):
     """the ops of the history that contains op number idx (a history starts at its first N op
     after an F op or at the beginning)"""
@@ -2144,7 +2311,7 @@ def history_around(ops, idx):
     return ops[start:end + 1]
 
 
-CHECKS = {"C12": check_C12, "C07": check_C07, "C06": check_C06, "C13": check_C13, "C14": check_C14, "C08": check_C08, "C15": check_C15, "C16": check_C16, "C10": check_C10, "C09": check_C09, "C11": check_C11, "C01": check_enc, "C02": check_enc, "C03": check_enc, "C04": check_enc, "C05": check_enc, "C17": check_C17, "C18": check_C18, "C19": check_C19}
+CHECKS = {"C12": check_C12, "C07": check_C07, "C06": check_C06, "C13": check_C13, "C14": check_C14, "C08": check_C08, "C15": check_C15, "C16": check_C16, "C10": check_C10, "C09": check_C09, "C11": check_C11, "C01": check_enc, "C02": check_enc, "C03": check_enc, "C04": check_enc, "C05": check_enc, "C17": check_C17, "C18": check_C18, "C19": check_C19, "C20": check_C20}
 
 
 def run_check(prop, tier, seed):
